@@ -35,6 +35,8 @@ func atomMatches(a Atom, i, o Obj) bool {
 		return subset(i.Sel, o.Labels)
 	case "nsIndex":
 		return o.NS == i.NS
+	case "valIndex":
+		return o.Val == i.Val
 	case "generic":
 		return genericPred(a.N, i, o)
 	}
@@ -164,7 +166,7 @@ func oracleCase(t *testing.T, lines [][]string) string {
 			synctest.Wait()
 		}()
 		head := lines[0]
-		if len(head) < 4 || strings.HasPrefix(head[2], "join") {
+		if len(head) < 4 || strings.HasPrefix(head[2], "join") || strings.HasPrefix(head[2], "mem") {
 			return // the join streams are checked by the Lean side only
 		}
 		tr, ok := parseTransform(head[3])
